@@ -809,7 +809,7 @@ func (mgr *Manager) mergeIndexesJob(offset int, indexes []*index.Reader, release
 }
 
 func (mgr *Manager) updateTagJob(name string, t tag, tagDetails map[string]query.TagDetails, converters map[string]index.ConverterAccess, indexes []*index.Reader, releaser indexReleaser) {
-	verifhook.Point(mgr, "tag.begin", name, t.definition, indexes)
+	verifhook.Point(mgr, "tag.begin", name, t.definition, indexes, &t.TagDetails, tagDetails)
 	err := func() error {
 		q, err := query.Parse(t.definition)
 		if err != nil {
